@@ -63,6 +63,10 @@ class SB:
     def __and__(self, o): return SB(z3.And(self.c, o.c if isinstance(o, SB) else z3.BoolVal(bool(o))))
     def __or__(self, o): return SB(z3.Or(self.c, o.c if isinstance(o, SB) else z3.BoolVal(bool(o))))
     def __invert__(self): return SB(z3.Not(self.c))
+    def __rand__(self, o): return self if o else False
+    def __ror__(self, o): return True if o else self
+    def __add__(self, o): return int(bool(self)) + (int(bool(o)) if isinstance(o, SB) else o)
+    __radd__ = __add__
 
 class SR:
     __array_priority__ = 1000
@@ -143,14 +147,24 @@ class SR:
     def __repr__(s): return f'SR({s.t})'
     def __float__(s): raise TypeError('symbolic real cannot be concretised')
 
-def exp_axioms(pairs):
+def exp_axioms(pairs, closure=False):
     # pairs (y, x) meaning x = exp(y)
     import itertools
     ax=[]
-    pairs = list(pairs)+[(z3.RealVal(0), z3.RealVal(1))]
-    for y,x in pairs: ax.append(x>0)
-    for (y1,x1),(y2,x2) in itertools.combinations(pairs,2):
+    base = list(pairs)+[(z3.RealVal(0), z3.RealVal(1))]
+    derived=[]
+    if closure:
+        bp=list(pairs)
+        for (y1,x1),(y2,x2) in itertools.combinations_with_replacement(bp,2):
+            derived.append((y1+y2, x1*x2))
+        for (y1,x1),(y2,x2) in itertools.permutations(bp,2):
+            derived.append((y1-y2, x1/x2))
+    for y,x in base: ax.append(x>0)
+    for (y1,x1),(y2,x2) in itertools.combinations(base,2):
         ax.append((y1<y2)==(x1<x2)); ax.append((y1==y2)==(x1==x2))
+    for (y1,x1) in derived:
+        for (y2,x2) in base:
+            ax.append((y1<y2)==(x1<x2)); ax.append((y1==y2)==(x1==x2))
     return ax
 def explore(fn):
     """run fn() over all feasible paths; yields (pc, defs, result|exception)"""
